@@ -119,6 +119,85 @@ func emptied(a any) any {
 	return reflect.Zero(t).Interface()
 }
 
+// rotateOmit: the same argument with the zero / non-zero pattern of its omitempty members rotated by one
+// member: as many columns are omitted as before, but other ones.  False when the type has fewer than
+// two omitempty members or all of them are alike.
+func rotateOmit(a any, r *rng) (any, bool) {
+	if a == nil {
+		return a, false
+	}
+	v := reflect.ValueOf(a)
+	t := v.Type()
+	rot := func(sv reflect.Value) bool {
+		var idx []int
+		for i := 0; i < sv.NumField(); i++ {
+			if strings.Contains(sv.Type().Field(i).Tag.Get("db"), "omitempty") && sv.Field(i).CanSet() {
+				idx = append(idx, i)
+			}
+		}
+		if len(idx) < 2 {
+			return false
+		}
+		flags := make([]bool, len(idx))
+		same := true
+		for i, fi := range idx {
+			flags[i] = sv.Field(fi).IsZero()
+			if flags[i] != flags[0] {
+				same = false
+			}
+		}
+		if same {
+			return false
+		}
+		ff := &filler{r: r, counter: 5000, zeroP: 0, nilP: 0}
+		for i, fi := range idx {
+			fld := sv.Field(fi)
+			if flags[(i+1)%len(idx)] {
+				fld.Set(reflect.Zero(fld.Type()))
+			} else if fld.IsZero() {
+				ff.fill(fld, 0)
+				if fld.IsZero() {
+					return false
+				}
+			}
+		}
+		return true
+	}
+	switch {
+	case t.Kind() == reflect.Struct:
+		nv := reflect.New(t).Elem()
+		nv.Set(v)
+		ok := rot(nv)
+		return nv.Interface(), ok
+	case t.Kind() == reflect.Pointer && !v.IsNil() && t.Elem().Kind() == reflect.Struct:
+		nv := reflect.New(t.Elem())
+		nv.Elem().Set(v.Elem())
+		ok := rot(nv.Elem())
+		return nv.Interface(), ok
+	}
+	return a, false
+}
+
+// rebulk: a single struct becomes a slice of two of it, a slice of structs its first element: the
+// other row layout of a bulk insert.
+func rebulk(a any) (any, bool) {
+	if a == nil {
+		return a, false
+	}
+	v := reflect.ValueOf(a)
+	t := v.Type()
+	switch {
+	case t.Kind() == reflect.Struct || (t.Kind() == reflect.Pointer && !v.IsNil() && t.Elem().Kind() == reflect.Struct):
+		s := reflect.MakeSlice(reflect.SliceOf(t), 0, 3)
+		s = reflect.Append(s, v, v, v)
+		return s.Interface(), true
+	case t.Kind() == reflect.Slice && t.Name() == "" && v.Len() > 0 &&
+		(t.Elem().Kind() == reflect.Struct || (t.Elem().Kind() == reflect.Pointer && t.Elem().Elem().Kind() == reflect.Struct)):
+		return v.Index(0).Interface(), true
+	}
+	return a, false
+}
+
 // reshape builds another argument of the same type with other contents (other
 // zero pattern, other slice length).
 func reshape(r *rng, a any, salt int) any {
@@ -251,6 +330,8 @@ func cmdDeterm(args []string) int {
 	r := newRng(*seed)
 	g := &bindGen{r: r, f: &filler{r: r.fork(), zeroP: 2, nilP: 1}}
 	st := determStats{Results: map[string]int{}}
+	var prevQ, prevA1 string
+	var prevSamples, prevArgs []any
 	for st.Cases < *n {
 		c := g.next()
 		stmt1, err := sqlair.Prepare(c.query, c.samples...)
@@ -370,6 +451,18 @@ func cmdDeterm(args []string) int {
 						}
 					case 1:
 						got, want = runOnce(stmt1, argsB), b1
+					case 3:
+						// meanwhile another query (the previous case) is being prepared and run
+						if prevQ == "" {
+							got, want = runOnce(stmt1, argsA), a1
+							break
+						}
+						sp, err := sqlair.Prepare(prevQ, prevSamples...)
+						if err != nil {
+							got, want = "prepare error: "+err.Error(), prevA1
+						} else {
+							got, want = runOnce(sp, prevArgs), prevA1
+						}
 					default:
 						got, want = runOnce(stmt1, argsA), a1
 					}
@@ -428,7 +521,55 @@ func cmdDeterm(args []string) int {
 				viol2("C03", "concurrent-use-differs", c.query, "long slices: "+bad)
 			}
 		}
+		// Prepare of this query and of the previous one from many goroutines at once: each call accepts or
+		// rejects as it does alone, with the same error
+		if prevQ != "" && st.Cases%2 == 1 {
+			outcome := func(q string, samples []any) string {
+				_, err := sqlair.Prepare(q, samples...)
+				if err != nil {
+					return "ERR " + err.Error()
+				}
+				return "OK"
+			}
+			wantCur, wantPrev := outcome(c.query, c.samples), outcome(prevQ, prevSamples)
+			var wg sync.WaitGroup
+			var mu sync.Mutex
+			bad := ""
+			for gi := 0; gi < 8; gi++ {
+				wg.Add(1)
+				go func(gi int) {
+					defer wg.Done()
+					defer func() {
+						if rec := recover(); rec != nil {
+							mu.Lock()
+							bad = "panic in goroutine: " + fmt.Sprint(rec)
+							mu.Unlock()
+						}
+					}()
+					for k := 0; k < 25; k++ {
+						var got, want string
+						if (gi+k)%2 == 0 {
+							got, want = outcome(c.query, c.samples), wantCur
+						} else {
+							got, want = outcome(prevQ, prevSamples), wantPrev
+						}
+						if got != want {
+							mu.Lock()
+							bad = "alone: " + trunc(want, 200) + "  among concurrent Prepare calls: " + trunc(got, 200)
+							mu.Unlock()
+							return
+						}
+					}
+				}(gi)
+			}
+			wg.Wait()
+			if bad != "" {
+				viol("concurrent-prepare-differs", c.query, bad)
+				viol2("C07", "concurrent-prepare-differs", c.query, bad)
+			}
+		}
 		caseStart.Store(0)
+		prevQ, prevSamples, prevArgs, prevA1 = c.query, c.samples, argsA, a1
 		if st.Cases <= 2 || (st.Cases%(*n/4+1) == 0 && len(st.Samples) < 6) {
 			st.Samples = append(st.Samples, c.query+" -> "+trunc(strings.ReplaceAll(a1, "\x1f", "|"), 160))
 		}
